@@ -147,7 +147,7 @@ def prefix_codes(pid, scs, res, mism):
         return {}
     out = {idx[i]: 0 for i in ok}
     for j, c, _ in mm:
-        out[idx[ok[j]]] = c
+        out[idx[ok[j]]] = c if c < 100 else 0
     return out
 
 
@@ -194,7 +194,12 @@ def correspondence(pid, tier, seed):
     timeouts = len(scs) - len(usable)
     scs2 = [s for s, _ in usable]
     res2 = [r for _, r in usable]
-    mism, errs = compare('solver_' + pid, scs2, res2)
+    mism_all, errs = compare('solver_' + pid, scs2, res2)
+    # codes 100+c: the only disagreements of that scenario are rounding-level (within 1e-9 relative in every field of every instant).
+    # They are recorded and make the search look harder, but do not by themselves contradict the tie: the model and the code agree as
+    # closely as the property (checked by the search on the code itself) can tell.
+    rounding = [(g, c - 100, k) for g, c, k in mism_all if 100 <= c < 200]
+    mism = [(g, c, k) for g, c, k in mism_all if not 100 <= c < 200]
     broken = list(grid_broken)
     if errs:
         broken.append('solver correspondence: a case file did not evaluate: ' + errs[0][1][-300:])
@@ -206,6 +211,8 @@ def correspondence(pid, tier, seed):
     pre = prefix_codes(pid, scs2, res2, mism)
     mine = [(g, c, k) for g, c, k in mism if concerns(pid, scs2[g], res2[g], c, k, plain_mismatch, pre.get(g))]
     failing = []
+    if rounding and not mine:
+        failing = [dict(scenario=scs2[g2], code=100 + c2, instant=k2) for g2, c2, k2 in rounding[:10]]
     if mine:
         g, c, k = mine[0]
         failing = [dict(scenario=scs2[g2], code=c2, instant=k2) for g2, c2, k2 in mine[:10]]
@@ -223,7 +230,7 @@ def correspondence(pid, tier, seed):
     rows = sum(len(r['rows'] or []) for r in res2)
     samples = [dict(motor=s['motor'], elems=s['elems'], load=s['load'], ops=s['ops']) for s in scs2[:2]]
     return dict(ok=not broken, evaluations=len(scs2), nontrivial=nt, samples=samples, rule=RULE[pid],
-                distribution=dict(outcomes=dist, chain_sizes=sizes, recorded_instants=rows, mismatching_any_field=len(mism), long_grid_cases=grid_n),
+                distribution=dict(outcomes=dist, chain_sizes=sizes, recorded_instants=rows, mismatching_any_field=len(mism), rounding_level_only=len(rounding), long_grid_cases=grid_n),
                 broken=broken, failing_cases=failing, _runs=(scs2, res2))
 
 
@@ -275,7 +282,7 @@ def schedule_specific(scs):
         return False
     res = execute(cut)
     mism, errs = compare('solver_cut', cut, res)
-    return len(mism) < len(cut)
+    return len([m for m in mism if m[1] < 100]) < len(cut)
 
 
 def long_grid_scenarios(rng, n):
